@@ -11,10 +11,13 @@ documented eqsat pipelines
                 from every SOUND arith PDL rule of the .mlir corpus, individually and pairwise
                 (apply-eqsat-pdl itself shells out to mlir-opt, which does not exist here)
 
-like xdsl-opt does: the module is verified after every pass (a failure there, or a pass raising a diagnostic, is a
-*reported failure*, counted, not a violation).  The extracted program must verify, define every value before its
-use, contain no eqsat op, and return what the source returns (mc.refsem) on every boundary input on which the source
-is defined; the identity pipeline must additionally give back the source up to op order.
+like xdsl-opt does: the module is verified after every pass.  A pass raising one of xDSL's diagnostics is a *reported
+failure* (counted; a violation only in the rule-free pipelines, whose inputs are all within the documented support);
+a pass raising a built-in Python exception, or leaving a module that does not verify, is a violation.  The extracted
+program must verify, define every value before its use, contain no eqsat op, and return what the source returns
+(mc.refsem) on every boundary input on which the source is defined; the rule-free pipelines must additionally give
+back the source up to op order.  A matcher shipped in the corpus next to its PDL source (rebuilding.mlir) is used as
+a second matcher for its rule set.
 
 Rule soundness is decided here, not assumed: lhs/rhs of every corpus rule are turned into two functions and compared
 with mc.refsem on a dense i32 grid and exhaustively at i4 (refinement: wherever the lhs is defined the rhs is defined
@@ -33,7 +36,6 @@ CONSTS_T = (0, 1, 2, -1)
 BINS = ("arith.addi", "arith.muli", "arith.subi", "arith.divui")
 BOUNDARY = (0, 1, -1, 2, 3, 7, 2 ** 31 - 1, -2 ** 31)
 DENSE = tuple(sorted(set(BOUNDARY) | set(range(-4, 9))))
-INTERNAL = (AttributeError, KeyError, IndexError, TypeError, AssertionError)
 CASE_TIMEOUT_S = 30
 
 
@@ -564,12 +566,19 @@ def matches_somewhere(spec, lhs) -> bool:
 # ======================================================================================
 # the pipelines
 # ======================================================================================
-class _CaseTimeout(Exception):
+class _CaseTimeout(BaseException):   # not an Exception: no handler of the code under test may swallow it
     pass
 
 
 def _alarm(_sig, _frm):
     raise _CaseTimeout()
+
+
+def _is_diagnostic(e: BaseException) -> bool:
+    """xDSL's own exception classes (DiagnosticException, VerifyException, InterpretationError, PassFailedException,
+    ...) are reported failures; Python's built-in ones (AttributeError, KeyError, IndexError, TypeError,
+    AssertionError, ValueError 'SSA value still has uses', RecursionError ...) are internal errors."""
+    return any(c.__module__.startswith("xdsl.utils.exceptions") for c in type(e).__mro__)
 
 
 def _site(e: BaseException) -> str:
@@ -648,21 +657,23 @@ def run_pipeline(st: Stats, spec, pipe, src) -> str:
             fn()
         except _CaseTimeout:
             raise
-        except INTERNAL as e:
+        except Exception as e:  # noqa: BLE001
+            if _is_diagnostic(e):   # a diagnostic: the tool reports that it cannot do this
+                if kind != "rules":
+                    _identity_failure(st, pname, sname, f"raises {type(e).__name__}: {str(e)[:120]}", wit)
+                return f"reported-failure:{sname}:{type(e).__name__}"
             st.violate(f"C28|{sname}|raises-internal|{type(e).__name__}@{_site(e)}",
                        f"{sname} raises {type(e).__name__} ({str(e)[:120]}) in {pname}", {**wit, "error": str(e)[:300]})
-            return f"raises-internal:{sname}"
-        except Exception as e:  # noqa: BLE001 - diagnostics are reported failures
-            if kind != "rules":
-                _identity_failure(st, pname, sname, f"raises {type(e).__name__}: {str(e)[:120]}", wit)
-            return f"reported-failure:{sname}:{type(e).__name__}"
+            return f"raises-internal:{sname}:{type(e).__name__}"
         try:
             module.verify()
         except Exception as e:  # noqa: BLE001
             if si != len(stages) - 1:
-                if kind != "rules":
-                    _identity_failure(st, pname, sname, f"leaves a module that does not verify: {str(e)[:120]}", wit)
-                return f"reported-failure:verify-after-{sname}"
+                # no diagnostic about the input: the pass itself produced invalid IR (xdsl-opt would stop here)
+                st.violate(f"C28|{sname}|output-does-not-verify",
+                           f"{pname}: the module {sname} leaves does not verify: {str(e)[:160]}",
+                           {**wit, "module": str(module)[:1500]})
+                return f"output-does-not-verify:{sname}"
             st.violate(f"C28|{pname}|does-not-verify", f"the extracted program does not verify: {str(e)[:160]}",
                        {**wit, "extracted": str(module)[:1500]})
             return "does-not-verify"
@@ -957,7 +968,8 @@ def run(ctx):
         "convert-pdl-interp-to-eqsat-pdl-interp (optimize_for_eqsat emits ematch ops no pass interprets: not used); "
         "a matcher shipped in the corpus with its PDL source as a comment is used as a second matcher for that rule set",
         "ApplyEqsatPDLInterpPass.apply only parses pdl_interp_file and calls apply_eqsat_pdl_interp, which is driven directly",
-        "like xdsl-opt, the module is verified after every pass; a verification failure before extraction is a reported failure",
+        "like xdsl-opt, the module is verified after every pass; xDSL diagnostics raised by a pass are reported failures "
+        "(violations only without rules), built-in Python exceptions and non-verifying pass outputs are violations",
         "if no rule of a set matches the source syntactically the set is not run beyond the single-rule probes "
         "(iteration 1 finds nothing, the loop exits)",
     ]
